@@ -2225,18 +2225,14 @@ fn split_signed_range(
         let Pattern(head_enum, _, _) = head;
         match head_enum {
             PatternEnum::NumUnsigned(n, _) => split_points.push(*n as i128),
-            PatternEnum::NumSigned(n, _) if *n >= 0 => split_points.push(*n as i128),
+            PatternEnum::NumSigned(n, _) => split_points.push(*n as i128),
             PatternEnum::UnsignedInclusiveRange(min, max, _) => {
                 split_points.push(*min as i128);
                 split_points.push(*max as i128 + 1);
             }
             PatternEnum::SignedInclusiveRange(min, max, _) => {
-                if *min >= 0 {
-                    split_points.push(*min as i128);
-                }
-                if *max >= 0 {
-                    split_points.push(*max as i128 + 1);
-                }
+                split_points.push(*min as i128);
+                split_points.push(*max as i128 + 1);
             }
             _ => {}
         }
@@ -2253,11 +2249,19 @@ fn split_signed_range(
             ));
         }
         if range[0] >= min as i128 && range[1] - 1 <= max as i128 {
-            ranges.push(Ctor::SignedInclusiveRange(
-                ty,
-                range[0] as i64,
-                (range[1] - 1) as i64,
-            ));
+            if range[0] < range[1] - 1 {
+                ranges.push(Ctor::SignedInclusiveRange(
+                    ty,
+                    range[0] as i64 + 1,
+                    (range[1] - 1) as i64,
+                ));
+            } else {
+                ranges.push(Ctor::SignedInclusiveRange(
+                    ty,
+                    range[0] as i64,
+                    (range[1] - 1) as i64,
+                ));
+            }
         }
     }
     ranges
@@ -2281,13 +2285,12 @@ fn split_ctor(patterns: &[PatternStack], q: &[TypedPattern], defs: &Defs) -> Vec
             _ => panic!("cannot split {head_enum:?} for type {ty:?}"),
         },
         Type::Signed(ty) => match head_enum {
-            PatternEnum::Identifier(_) => {
-                vec![Ctor::SignedInclusiveRange(
-                    *ty,
-                    ty.min().unwrap_or(i32::MIN as i64),
-                    ty.max().unwrap_or(i32::MAX as i64),
-                )]
-            }
+            PatternEnum::Identifier(_) => split_signed_range(
+                *ty,
+                patterns,
+                ty.min().unwrap_or(i32::MIN as i64),
+                ty.max().unwrap_or(i32::MAX as i64),
+            ),
             PatternEnum::NumUnsigned(n, _) => {
                 vec![Ctor::SignedInclusiveRange(*ty, *n as i64, *n as i64)]
             }
